@@ -308,7 +308,11 @@ func (h *harness) process(scripts []*Script) {
 				suspects[i] = true
 			}
 			var requeue []*Script
-			for _, i := range cr.inflight {
+			for k, i := range cr.inflight {
+				if k >= 8 || h.nviol >= 6 { // enough suspects tried; the others go back into the queue below
+					delete(suspects, i)
+					continue
+				}
 				_, _, c2 := h.solo(cur[i])
 				if c2 != nil {
 					h.violate(cur[i], "no-panic", panicKey(c2.stderr), "the client crashed the process:\n"+c2.stderr)
@@ -326,6 +330,10 @@ func (h *harness) process(scripts []*Script) {
 				if !suspects[i] {
 					requeue = append(requeue, sc)
 				}
+			}
+			if h.nviol >= 6 {
+				h.ctx.Note("stopped after repeated crashes of the client")
+				return
 			}
 			scripts = append(requeue, scripts...)
 			continue
